@@ -38,6 +38,8 @@ def scenarios(tier):
         {'name': 'warm-orphan-dir-payload', 'procs': [['d1', 'file'], ['d2', 'file']], 'trash': 'warm-orphan'},
         {'name': 'alt-cold-2files', 'procs': [['v1', 'file'], ['v2', 'file']], 'trash': 'alt-cold'},
         {'name': 'warm-same-file-twice', 'procs': [['d1', 'file'], ['d1', 'file']], 'trash': 'warm', 'same': True},
+        # the same file given to two processes while the volume's trash directory does not exist yet: the loser fails AFTER the directories were made
+        {'name': 'alt-cold-same-file-twice', 'procs': [['v1', 'file'], ['v1', 'file']], 'trash': 'alt-cold', 'same': True, 'bound': 2},
     ]
     if q:
         out.append({'name': 'cold-2files(pb2)', 'procs': [['d1', 'file'], ['d2', 'file']], 'trash': 'cold', 'bound': 2})
@@ -72,7 +74,7 @@ def procs(scn):
 
 def shared(scn):
     if scn['trash'] == 'alt-cold':
-        return ['/mnt/v1/.Trash-0', '/mnt/v1/.Trash']
+        return ['/mnt/v1/.Trash-0', '/mnt/v1/.Trash'] + (['/mnt/v1/' + scn['procs'][0][0]] if scn.get('same') else [])
     if scn.get('same'):
         return [TD, B + '/' + scn['procs'][0][0]]        # the contended file is shared state too
     return [B + '/.local'] if scn['trash'] == 'cold' else [TD]
@@ -120,7 +122,8 @@ def terminal(scn, snap, results):
     want = []
     if scn.get('same'):
         # both processes were given the SAME file: exactly one can win; the loser must fail cleanly
-        base = B + '/' + scn['procs'][0][0]
+        d0 = scn['procs'][0][0]
+        base = ('/mnt/v1/' + d0) if d0.startswith('v') else (B + '/' + d0)
         if len(okp) != 1 or world.under(snap, base + '/a') or len(complete) != 1 or \
                 not world.same_entry(osnap, base + '/a', snap, '%s/files/%s' % (td, complete[0]), dir_mtime=False):
             return {'label': label, 'viol': ('C04|same-file-trashed-by-two-processes-not-exactly-once', 'same-file', detail)}
